@@ -53,6 +53,34 @@ func sensitivity(prop, repo string, run func(*Program, string) *Ctx) []SensResul
 	return out
 }
 
+// benignReplay: the behaviour-preserving changes kept under /verif/benign for
+// this property, analysed as overlays; a report is a false alarm of the checker
+// (recorded and printed as a NOTE, never a violation of the property).
+func benignReplay(prop, repo string, run func(*Program, string) *Ctx) []SensResult {
+	root := verifRoot()
+	dirs, _ := filepath.Glob(filepath.Join(root, "benign", prop+"-n*"))
+	sort.Strings(dirs)
+	var out []SensResult
+	for _, d := range dirs {
+		r, p := seedOverlayProgram(d, repo)
+		r.Detected = false
+		if p != nil {
+			c := run(p, "overlay:"+r.ID)
+			rules := map[string]bool{}
+			for _, o := range c.Unlisted() {
+				rules[o.Rule] = true
+			}
+			for k := range rules {
+				r.Rules = append(r.Rules, k)
+			}
+			sort.Strings(r.Rules)
+			r.Detected = len(r.Rules) > 0
+		}
+		out = append(out, r)
+	}
+	return out
+}
+
 // seedOverlayProgram loads the current tree with the seeded change of
 // directory d applied in memory; the program is nil when the patch does not
 // apply or the variant does not load (then r says why).
